@@ -7,8 +7,8 @@
 (* accepts, ignores, bans or disconnects.  The process has exactly one     *)
 (* deliberate abort: a valid proof from genesis that confirms a fork       *)
 (* deeper than last-N, i.e. a SendLastStateProof for a request that        *)
-(* carries the long-fork flag.  Whatever the bytes, the stored tip stays a *)
-(* block of the world and its total difficulty never decreases.            *)
+(* carries the long-fork flag.  Whatever the bytes, the total difficulty   *)
+(* of the stored tip never decreases.                                      *)
 (***************************************************************************)
 EXTENDS World
 
@@ -25,9 +25,8 @@ Outcomes == {"accept", "ignore", "ban", "disconnect"}
 
 \* the trusted tip under arbitrary input
 TipSafe ==
-    \* (without proof of work a peer can invent a valid child of the proven tip: only with real PoW must the
-    \* tip be one of the world's blocks)
-    /\ pow = "eaglesong" => tip' \in BlockIds(world)
+    \* (a peer can always extend the proven tip by a block of its own -- for free under the Dummy engine, by
+    \* mining it otherwise -- so the tip need not be one of the world's blocks; C12 judges its truthfulness)
     /\ tipTD' >= tipTD
     /\ tip' # tip => tipTD' > tipTD
 
@@ -45,5 +44,5 @@ LongForkAbort(p) ==
     /\ alive' = FALSE
     /\ UNCHANGED <<world, peers, pow, tip, tipTD, pst>>
 
-TypeOK == alive \in BOOLEAN /\ (pow = "eaglesong" => tip \in BlockIds(world))
+TypeOK == alive \in BOOLEAN /\ pow \in {"dummy", "eaglesong"}
 =============================================================================
